@@ -582,10 +582,11 @@ func parseGitHub(out string, colour bool) (GDoc, error) {
 }
 
 type SRule struct {
-	ID   H  `json:"id"`
-	Desc H  `json:"desc"`
-	Help *H `json:"help"`
-	Cat  H  `json:"cat"`
+	ID       H  `json:"id"`
+	Desc     H  `json:"desc"`
+	Help     *H `json:"help"`
+	Cat      H  `json:"cat"`
+	DefLevel *H `json:"deflevel,omitempty"` // defaultConfiguration.level, when the rule carries one
 }
 type SRegion struct {
 	Row int     `json:"row"`
@@ -601,6 +602,11 @@ type SResult struct {
 	HasLoc bool     `json:"hasloc"`
 	URI    H        `json:"uri"`
 	Region *SRegion `json:"region"`
+	// further references a result may carry (none of them is written by the reporter today)
+	HasLevel bool `json:"haslevel"`           // the result has a level property of its own
+	RefID    *H   `json:"refid,omitempty"`    // result.rule.id
+	RefIndex *int `json:"refindex,omitempty"` // result.rule.index
+	ArtIndex *int `json:"artindex,omitempty"` // artifactLocation.index
 }
 type SDoc struct {
 	Rules     []SRule   `json:"rules"`
@@ -619,8 +625,11 @@ type sarifFile struct {
 					ShortDescription *struct {
 						Text string `json:"text"`
 					} `json:"shortDescription"`
-					HelpURI    *string        `json:"helpUri"`
-					Properties map[string]any `json:"properties"`
+					HelpURI              *string        `json:"helpUri"`
+					Properties           map[string]any `json:"properties"`
+					DefaultConfiguration *struct {
+						Level *string `json:"level"`
+					} `json:"defaultConfiguration"`
 				} `json:"rules"`
 			} `json:"driver"`
 		} `json:"tool"`
@@ -632,15 +641,20 @@ type sarifFile struct {
 		Results []struct {
 			RuleID    string  `json:"ruleId"`
 			RuleIndex *int    `json:"ruleIndex"`
+			Rule      *struct {
+				ID    *string `json:"id"`
+				Index *int    `json:"index"`
+			} `json:"rule"`
 			Kind      *string `json:"kind"`
-			Level     string  `json:"level"`
+			Level     *string `json:"level"`
 			Message   struct {
 				Text string `json:"text"`
 			} `json:"message"`
 			Locations []struct {
 				PhysicalLocation struct {
 					ArtifactLocation struct {
-						URI string `json:"uri"`
+						URI   string `json:"uri"`
+						Index *int   `json:"index"`
 					} `json:"artifactLocation"`
 					Region *struct {
 						StartLine   *int `json:"startLine"`
@@ -677,13 +691,27 @@ func parseSarif(out string) (SDoc, error) {
 		if c, ok := r.Properties["category"].(string); ok {
 			sr.Cat = hx(c)
 		}
+		if r.DefaultConfiguration != nil && r.DefaultConfiguration.Level != nil {
+			h := hx(*r.DefaultConfiguration.Level)
+			sr.DefLevel = &h
+		}
 		d.Rules = append(d.Rules, sr)
 	}
 	for _, a := range run.Artifacts {
 		d.Artifacts = append(d.Artifacts, hx(a.Location.URI))
 	}
 	for _, r := range run.Results {
-		x := SResult{Rule: hx(r.RuleID), Index: r.RuleIndex, Level: hx(r.Level), Msg: hx(r.Message.Text)}
+		x := SResult{Rule: hx(r.RuleID), Index: r.RuleIndex, Msg: hx(r.Message.Text)}
+		if r.Level != nil {
+			x.Level, x.HasLevel = hx(*r.Level), true
+		}
+		if r.Rule != nil {
+			if r.Rule.ID != nil {
+				h := hx(*r.Rule.ID)
+				x.RefID = &h
+			}
+			x.RefIndex = r.Rule.Index
+		}
 		if r.Kind != nil {
 			h := hx(*r.Kind)
 			x.Kind = &h
@@ -695,6 +723,7 @@ func parseSarif(out string) (SDoc, error) {
 			x.HasLoc = true
 			pl := r.Locations[0].PhysicalLocation
 			x.URI = hx(pl.ArtifactLocation.URI)
+			x.ArtIndex = pl.ArtifactLocation.Index
 			if pl.Region != nil {
 				if pl.Region.StartLine == nil || pl.Region.StartColumn == nil {
 					return d, fmt.Errorf("region without start line/column")
@@ -885,6 +914,289 @@ func prettyKeys(p PDoc) []key {
 	return ks
 }
 
+// ---------------------------------------------------------------- internal consistency of one document
+//
+// Every format says some things twice: a SARIF result names its rule by id and by position in
+// tool.driver.rules, JUnit carries tests=/failures= counts next to the test cases, the pretty footer and the
+// compact summary count the rows above them, GitHub prints every violation as a table entry and as an
+// annotation, the JSON summary counts the list it follows.  A consumer may read either of the two, so a document
+// whose redundant parts contradict each other does not reflect the report, whichever part is the right one.
+// These checks need no report and no model: they look at one parsed document only.  `trust` says whether the
+// summary the footer is printed from is known to agree with the violation list (always for the linter's own
+// reports; for generated reports when the generated summary does).
+
+var footerRe = regexp.MustCompile(`^([0-9]+) files? linted\.(?: No violations found\.| ([0-9]+) violations? (?:\(([0-9]+) errors?, ([0-9]+) warnings?\) )?found(?: in ([0-9]+) files?)?\.)`)
+
+func distinctCount(xs []string) int {
+	m := map[string]bool{}
+	for _, x := range xs {
+		m[x] = true
+	}
+	return len(m)
+}
+
+func entryLevel(e PEntry) (string, bool) { // level, exact (false: colour only tells warning / not warning)
+	if e.Level != nil {
+		return unhx(*e.Level), true
+	}
+	if e.Yellow != nil && *e.Yellow {
+		return "warning", true
+	}
+	return "error", false
+}
+
+func consistPretty(p PDoc, trust bool) string {
+	m := footerRe.FindStringSubmatch(unhx(p.Footer))
+	if m == nil {
+		return fmt.Sprintf("footer not understood: %q", head(unhx(p.Footer)))
+	}
+	warn, errs, exact := 0, 0, true
+	var files []string
+	for _, e := range p.Entries {
+		l, ex := entryLevel(e)
+		exact = exact && ex
+		switch l {
+		case "warning":
+			warn++
+		case "error":
+			errs++
+		}
+		f, _, _ := splitLoc(unhx(e.Loc))
+		files = append(files, f)
+	}
+	if m[4] != "" {
+		fw, _ := strconv.Atoi(m[4])
+		fe, _ := strconv.Atoi(m[3])
+		if fw != warn {
+			return fmt.Sprintf("the footer counts %d warnings, the table shows %d", fw, warn)
+		}
+		if exact && fe != errs || !exact && fe > errs {
+			return fmt.Sprintf("the footer counts %d errors, the table shows %d", fe, errs)
+		}
+	} else if m[2] != "" && warn > 0 {
+		return fmt.Sprintf("the footer gives no warning count, the table shows %d warnings", warn)
+	}
+	if !trust {
+		return ""
+	}
+	n := 0
+	if m[2] != "" {
+		n, _ = strconv.Atoi(m[2])
+	}
+	if n != len(p.Entries) {
+		return fmt.Sprintf("the footer counts %d violations, the table has %d entries", n, len(p.Entries))
+	}
+	if m[5] != "" {
+		k, _ := strconv.Atoi(m[5])
+		if k != distinctCount(files) {
+			return fmt.Sprintf("the footer counts %d files with violations, the table names %d", k, distinctCount(files))
+		}
+	}
+	return ""
+}
+
+var compactSummaryRe = regexp.MustCompile(`^([0-9]+) files? linted , ([0-9]+) violations? found\.$`)
+
+func consistCompact(c CDoc, trust bool) string {
+	if c.Empty {
+		return ""
+	}
+	m := compactSummaryRe.FindStringSubmatch(unhx(c.Summary))
+	if m == nil {
+		return fmt.Sprintf("summary line not understood: %q", head(unhx(c.Summary)))
+	}
+	if n, _ := strconv.Atoi(m[2]); trust && n != len(c.Rows) {
+		return fmt.Sprintf("the summary counts %d violations, the table has %d rows", n, len(c.Rows))
+	}
+	return ""
+}
+
+const learnMore = ". To learn more, see: "
+
+func consistGitHub(g GDoc, trust bool) string {
+	if d := consistPretty(g.Pretty, trust); d != "" {
+		return d
+	}
+	if len(g.Anns) != len(g.Pretty.Entries) {
+		return fmt.Sprintf("%d table entries but %d annotations", len(g.Pretty.Entries), len(g.Anns))
+	}
+	for i, a := range g.Anns {
+		e := g.Pretty.Entries[i]
+		loc := unhx(a.File)
+		if a.Row != 0 || a.Col != 0 {
+			loc = fmt.Sprintf("%s:%d:%d", unhx(a.File), a.Row, a.Col)
+		}
+		if strings.TrimRight(loc, " ") != unhx(e.Loc) {
+			return fmt.Sprintf("annotation %d is attached to %q, table entry %d is located at %q", i, loc, i, unhx(e.Loc))
+		}
+		if l, exact := entryLevel(e); exact && l != unhx(a.Level) || !exact && unhx(a.Level) == "warning" {
+			return fmt.Sprintf("annotation %d has level %q, table entry %d shows %q", i, unhx(a.Level), i, l)
+		}
+		msg, ok := unhx(a.Msg), false
+		for from := 0; !ok; {
+			k := strings.Index(msg[from:], learnMore)
+			if k < 0 {
+				break
+			}
+			k += from
+			// the table pads its cells: trailing spaces cannot be told from padding
+			ok = strings.TrimRight(msg[:k], " ") == strings.TrimRight(unhx(e.Desc), " ") &&
+				strings.TrimRight(msg[k+len(learnMore):], " ") == strings.TrimRight(unhx(e.Doc), " ")
+			from = k + 1
+		}
+		if !ok && utf8.ValidString(msg) && !strings.ContainsAny(msg, "\n\r") {
+			return fmt.Sprintf("annotation %d says %q, table entry %d has description %q and documentation %q", i, head(msg), i, head(unhx(e.Desc)), unhx(e.Doc))
+		}
+	}
+	return ""
+}
+
+// sarifEffectiveLevel: SARIF 2.1.0 3.27.10: an absent level defaults to the rule's default configuration, else "warning"
+func sarifEffectiveLevel(s SDoc, x SResult) string {
+	if x.HasLevel {
+		return unhx(x.Level)
+	}
+	if x.Kind != nil && unhx(*x.Kind) != "fail" {
+		return "none"
+	}
+	if x.Index != nil && *x.Index >= 0 && *x.Index < len(s.Rules) && s.Rules[*x.Index].DefLevel != nil {
+		return unhx(*s.Rules[*x.Index].DefLevel)
+	}
+	for _, r := range s.Rules {
+		if r.ID == x.Rule && r.DefLevel != nil {
+			return unhx(*r.DefLevel)
+		}
+	}
+	return "warning"
+}
+
+func consistSarif(s SDoc) string {
+	ids := map[string]int{}
+	for i, r := range s.Rules {
+		if j, dup := ids[unhx(r.ID)]; dup {
+			return fmt.Sprintf("tool.driver.rules[%d] and [%d] have the same id %q", j, i, unhx(r.ID))
+		}
+		ids[unhx(r.ID)] = i
+	}
+	arts := map[string]int{}
+	for i, a := range s.Artifacts {
+		if j, dup := arts[unhx(a)]; dup {
+			return fmt.Sprintf("artifacts[%d] and [%d] have the same uri %q", j, i, unhx(a))
+		}
+		arts[unhx(a)] = i
+	}
+	for i, x := range s.Results {
+		id := unhx(x.Rule)
+		if x.RefID != nil && unhx(*x.RefID) != id {
+			return fmt.Sprintf("results[%d]: ruleId %q but rule.id %q", i, id, unhx(*x.RefID))
+		}
+		for _, idx := range []*int{x.Index, x.RefIndex} {
+			if idx == nil {
+				continue
+			}
+			if *idx < 0 || *idx >= len(s.Rules) {
+				return fmt.Sprintf("results[%d] (ruleId %q): ruleIndex %d is outside tool.driver.rules (%d rules)", i, id, *idx, len(s.Rules))
+			}
+			if got := unhx(s.Rules[*idx].ID); got != id {
+				return fmt.Sprintf("results[%d]: ruleId %q but ruleIndex %d, which is rule %q", i, id, *idx, got)
+			}
+		}
+		if x.Index == nil && x.RefIndex == nil {
+			if _, ok := ids[id]; !ok {
+				return fmt.Sprintf("results[%d]: ruleId %q is not in tool.driver.rules", i, id)
+			}
+		}
+		if x.HasLoc {
+			uri := unhx(x.URI)
+			if x.ArtIndex != nil {
+				if *x.ArtIndex < 0 || *x.ArtIndex >= len(s.Artifacts) {
+					return fmt.Sprintf("results[%d]: artifact index %d is outside artifacts (%d)", i, *x.ArtIndex, len(s.Artifacts))
+				}
+				if got := unhx(s.Artifacts[*x.ArtIndex]); got != uri {
+					return fmt.Sprintf("results[%d]: artifact uri %q but index %d, which is %q", i, uri, *x.ArtIndex, got)
+				}
+			}
+			if _, ok := arts[uri]; !ok && len(s.Artifacts) > 0 {
+				return fmt.Sprintf("results[%d]: artifact %q is not in the artifacts list", i, uri)
+			}
+		}
+		if x.Kind != nil && unhx(*x.Kind) != "fail" && sarifEffectiveLevel(s, x) != "none" {
+			return fmt.Sprintf("results[%d]: kind %q with level %q (must be none)", i, unhx(*x.Kind), sarifEffectiveLevel(s, x))
+		}
+	}
+	used := map[string]bool{}
+	for _, x := range s.Results {
+		if x.HasLoc {
+			used[unhx(x.URI)] = true
+		}
+	}
+	for _, a := range s.Artifacts {
+		if !used[unhx(a)] {
+			return fmt.Sprintf("artifact %q is listed but no result is located in it", unhx(a))
+		}
+	}
+	return ""
+}
+
+var junitLocLine = regexp.MustCompile(`(?m)^Location: (.*)$`)
+
+func consistJUnit(j JDoc) string {
+	tests, failures := 0, 0
+	for _, s := range j.Suites {
+		if s.Tests != len(s.Cases) {
+			return fmt.Sprintf("suite %q: tests=%d but %d test cases", unhx(s.Name), s.Tests, len(s.Cases))
+		}
+		if s.Failures != len(s.Cases) { // every test case read by parseJUnit has a failure element
+			return fmt.Sprintf("suite %q: failures=%d but %d failed test cases", unhx(s.Name), s.Failures, len(s.Cases))
+		}
+		tests += len(s.Cases)
+		failures += len(s.Cases)
+		for _, c := range s.Cases {
+			cl, name := unhx(c.Class), unhx(s.Name)
+			rest := strings.TrimPrefix(cl, name)
+			if !strings.HasPrefix(cl, name) || rest != "" && !regexp.MustCompile(`^:[0-9]+:[0-9]+$`).MatchString(rest) {
+				return fmt.Sprintf("suite %q contains a test case with classname %q", name, cl)
+			}
+			if m := junitLocLine.FindStringSubmatch(unhx(c.Data)); m == nil || m[1] != cl {
+				return fmt.Sprintf("test case with classname %q: the failure text has another Location line", cl)
+			}
+			if !strings.Contains(unhx(c.Name), "/"+unhx(c.Rule)+": ") {
+				return fmt.Sprintf("test case %q: the failure text names rule %q", head(unhx(c.Name)), unhx(c.Rule))
+			}
+		}
+	}
+	if j.Tests != tests {
+		return fmt.Sprintf("testsuites tests=%d but %d test cases in all suites", j.Tests, tests)
+	}
+	if j.Failures != failures {
+		return fmt.Sprintf("testsuites failures=%d but %d failed test cases in all suites", j.Failures, failures)
+	}
+	return ""
+}
+
+func consistJSON(r report.Report) string {
+	if r.Summary.NumViolations != len(r.Violations) {
+		return fmt.Sprintf("summary.num_violations is %d, the violations list has %d entries", r.Summary.NumViolations, len(r.Violations))
+	}
+	var files []string
+	for _, v := range r.Violations {
+		files = append(files, v.Location.File)
+	}
+	if r.Summary.FilesFailed != distinctCount(files) {
+		return fmt.Sprintf("summary.files_failed is %d, the violations name %d files", r.Summary.FilesFailed, distinctCount(files))
+	}
+	return ""
+}
+
+func summaryTrusted(r *report.Report) bool { return r == nil || consistJSON(*r) == "" }
+
+func inconsistent(pr pred, detail string) pred {
+	if pr.OK && detail != "" {
+		return pred{false, "internally inconsistent document: " + detail}
+	}
+	return pr
+}
+
 // ---------------------------------------------------------------- running one case
 
 func newReporter(format string, buf *bytes.Buffer) reporter.Reporter {
@@ -940,7 +1252,7 @@ func parseOutput(format string, noColor bool, out string, r *report.Report) (any
 		if err != nil {
 			return errDoc(err, out), pred{false, "unparsable output: " + err.Error()}
 		}
-		pr := chk(prettyKeys(p), ident)
+		pr := inconsistent(chk(prettyKeys(p), ident), consistPretty(p, summaryTrusted(r)))
 		if pr.OK && !utf8.ValidString(out) && r != nil && reportIsUTF8(*r) {
 			pr = pred{false, "output is not valid UTF-8 although every string of the report is"}
 		}
@@ -956,7 +1268,7 @@ func parseOutput(format string, noColor bool, out string, r *report.Report) (any
 			f, rr, cc := splitLoc(unhx(row[0]))
 			ks = append(ks, key{f, rr, cc, "", ""})
 		}
-		pr := chk(ks, func(k key) key { return key{k.File, k.Row, k.Col, "", ""} })
+		pr := inconsistent(chk(ks, func(k key) key { return key{k.File, k.Row, k.Col, "", ""} }), consistCompact(c, summaryTrusted(r)))
 		if pr.OK && r != nil {
 			for _, v := range r.Violations {
 				if !strings.Contains(out, v.Title) || !strings.Contains(out, v.Level) {
@@ -983,7 +1295,7 @@ func parseOutput(format string, noColor bool, out string, r *report.Report) (any
 		if pr.OK {
 			pr = chk(prettyKeys(g.Pretty), ident)
 		}
-		return g, pr
+		return g, inconsistent(pr, consistGitHub(g, summaryTrusted(r)))
 	case "sarif":
 		s, err := parseSarif(out)
 		if err != nil {
@@ -994,7 +1306,7 @@ func parseOutput(format string, noColor bool, out string, r *report.Report) (any
 			if x.Kind != nil {
 				continue
 			}
-			k := key{File: unhx(x.URI), Title: unhx(x.Rule), Level: unhx(x.Level)}
+			k := key{File: unhx(x.URI), Title: unhx(x.Rule), Level: sarifEffectiveLevel(s, x)}
 			if x.Region != nil {
 				k.Row, k.Col = x.Region.Row, x.Region.Col
 			}
@@ -1019,7 +1331,7 @@ func parseOutput(format string, noColor bool, out string, r *report.Report) (any
 				pr = pred{false, fmt.Sprintf("%d notices with a severity but %d informational results", want, got)}
 			}
 		}
-		return s, pr
+		return s, inconsistent(pr, consistSarif(s))
 	case "junit":
 		j, err := parseJUnit(out)
 		if err != nil {
@@ -1042,7 +1354,7 @@ func parseOutput(format string, noColor bool, out string, r *report.Report) (any
 		if pr.OK && dup != "" {
 			pr = pred{false, fmt.Sprintf("suite %q appears more than once", dup)}
 		}
-		return j, pr
+		return j, inconsistent(pr, consistJUnit(j))
 	case "json":
 		jv, err := parseJVal([]byte(out))
 		if err != nil {
@@ -1057,6 +1369,9 @@ func parseOutput(format string, noColor bool, out string, r *report.Report) (any
 			if d := roundTripDiff(*r, back); d != "" {
 				pr = pred{false, "JSON does not parse back to the same report: " + d}
 			}
+		}
+		if summaryTrusted(r) {
+			pr = inconsistent(pr, consistJSON(back))
 		}
 		return map[string]any{"jval": jv}, pr
 	}
@@ -1379,6 +1694,115 @@ func generate(rng *hutil.Rng, tier string) []Case {
 	return cs
 }
 
+// selfTest: every internal-consistency check must reject a document in which one of the two redundant parts was
+// changed (the perturbations are made on parsed documents of a fixed report, so they do not depend on /repo's
+// reporters being right beyond producing parsable output).
+func selfTest() []map[string]any {
+	h := func(s string) *H { x := hx(s); return &x }
+	doc := []CRel{{hx("documentation"), hx("https://example.com/doc")}}
+	v := func(title, level, file string, row int) CViolation {
+		return CViolation{Title: hx(title), Desc: hx("description of " + title), Cat: hx("style"), Level: hx(level),
+			Related: doc, Loc: CLoc{File: hx(file), Row: row, Col: 1, Text: h("some text")}}
+	}
+	cr := CReport{Violations: []CViolation{v("zeta-rule", "error", "b.rego", 3), v("alpha-rule", "warning", "b.rego", 1), v("zeta-rule", "error", "a.rego", 7)},
+		Notices: []CNotice{{hx("skipped-rule"), hx("skipped"), hx("bugs"), hx("notice"), hx("warning")}}, Summary: [4]int{2, 2, 1, 3}}
+	r := toReal(&cr)
+	color.NoColor = true
+	outs := map[string]string{}
+	for _, f := range formats {
+		var buf bytes.Buffer
+		if err := newReporter(f, &buf).Publish(context.Background(), r); err != nil {
+			return []map[string]any{{"name": "publish " + f, "flagged": false, "detail": err.Error()}}
+		}
+		outs[f] = buf.String()
+	}
+	var res []map[string]any
+	add := func(name, before, after string) {
+		res = append(res, map[string]any{"name": name, "flagged": before == "" && after != "", "clean_before": before == "", "detail": after})
+	}
+	if s, err := parseSarif(outs["sarif"]); err == nil && len(s.Rules) >= 2 && len(s.Results) >= 3 {
+		t := s
+		t.Rules = append([]SRule{}, s.Rules...)
+		t.Rules[0], t.Rules[1] = t.Rules[1], t.Rules[0]
+		add("sarif: two rules exchanged after the results were created", consistSarif(s), consistSarif(t))
+		t = s
+		t.Results = append([]SResult{}, s.Results...)
+		k := len(s.Rules)
+		t.Results[0].Index = &k
+		add("sarif: ruleIndex past the rules", consistSarif(s), consistSarif(t))
+		t = s
+		t.Artifacts = s.Artifacts[:1]
+		add("sarif: an artifact dropped", consistSarif(s), consistSarif(t))
+		t = s
+		t.Results = append([]SResult{}, s.Results...)
+		z := 0
+		if unhx(s.Artifacts[0]) == unhx(s.Results[2].URI) {
+			z = 1
+		}
+		t.Results[2].ArtIndex = &z
+		add("sarif: artifact index of another file", consistSarif(s), consistSarif(t))
+	} else {
+		add("sarif: parse", "x", "")
+	}
+	if j, err := parseJUnit(outs["junit"]); err == nil && len(j.Suites) == 2 {
+		t := j
+		t.Tests++
+		add("junit: total tests attribute", consistJUnit(j), consistJUnit(t))
+		t = j
+		t.Suites = append([]JSuite{}, j.Suites...)
+		t.Suites[0].Failures--
+		add("junit: failures attribute of a suite", consistJUnit(j), consistJUnit(t))
+		t = j
+		t.Suites = append([]JSuite{}, j.Suites...)
+		t.Suites[0].Name, t.Suites[1].Name = t.Suites[1].Name, t.Suites[0].Name
+		add("junit: suite names exchanged", consistJUnit(j), consistJUnit(t))
+	} else {
+		add("junit: parse", "x", "")
+	}
+	if p, err := parsePretty(outs["pretty"], false); err == nil && len(p.Entries) == 3 {
+		t := p
+		t.Entries = p.Entries[:2]
+		add("pretty: an entry dropped, footer kept", consistPretty(p, true), consistPretty(t, true))
+		t = p
+		t.Entries = append([]PEntry{}, p.Entries...)
+		t.Entries[0].Level = h("warning")
+		add("pretty: a level changed, footer kept", consistPretty(p, true), consistPretty(t, true))
+	} else {
+		add("pretty: parse", "x", "")
+	}
+	if c, err := parseCompact(outs["compact"]); err == nil && len(c.Rows) == 3 {
+		t := c
+		t.Rows = c.Rows[:2]
+		add("compact: a row dropped, summary kept", consistCompact(c, true), consistCompact(t, true))
+	} else {
+		add("compact: parse", "x", "")
+	}
+	if g, err := parseGitHub(outs["github"], false); err == nil && len(g.Anns) == 3 {
+		t := g
+		t.Anns = append([]GAnn{}, g.Anns...)
+		t.Anns[0], t.Anns[1] = t.Anns[1], t.Anns[0]
+		add("github: two annotations exchanged", consistGitHub(g, true), consistGitHub(t, true))
+		t = g
+		t.Anns = append([]GAnn{}, g.Anns...)
+		t.Anns[2].Row++
+		add("github: annotation line differs from the table", consistGitHub(g, true), consistGitHub(t, true))
+	} else {
+		add("github: parse", "x", "")
+	}
+	var back report.Report
+	if err := json.Unmarshal([]byte(outs["json"]), &back); err == nil {
+		t := back
+		t.Summary.NumViolations++
+		add("json: num_violations", consistJSON(back), consistJSON(t))
+		t = back
+		t.Summary.FilesFailed = 1
+		add("json: files_failed", consistJSON(back), consistJSON(t))
+	} else {
+		add("json: parse", "x", "")
+	}
+	return res
+}
+
 func main() {
 	if len(os.Args) < 2 {
 		fmt.Fprintln(os.Stderr, "usage: c10 gen|replay|parse ...")
@@ -1426,6 +1850,8 @@ func main() {
 		defer out.Close()
 		runCase(&c)
 		out.Emit(c)
+	case "selftest":
+		json.NewEncoder(os.Stdout).Encode(selfTest())
 	case "parse":
 		b, err := os.ReadFile(os.Args[4])
 		if err != nil {
